@@ -306,6 +306,7 @@ class HealthShadow:
             del self.timed[(mech, key)]
             return
         if now in t["cands"]:
+            self.cov.inc("completions_judged_on_schedule")
             self.cov.hit("completions_on_schedule", f"{mech}|d={t['reqs'][-1][1]}")
             t["opt"] |= {c for c in t["cands"] if c > now}
             t["cands"] = set()
